@@ -132,6 +132,7 @@ Section Manager.
   Inductive op :=
   | OBackup (i : nat)
   | ORestore (i j : nat)                (* installation i merges the snapshot published by j *)
+  | ORestoreFile (i s : nat)            (* installation i merges text file s as a snapshot *)
   | OSync (i : nat) (order : list nat)  (* [order]: the sync directory's iteration order *)
   | OExport (i s : nat)
   | OImport (i s : nat)
@@ -171,6 +172,13 @@ Section Manager.
         (set_snap (set_db w i d) i f, 1%Z)
     | ORestore i j =>
         match nth j (w_snaps w) None with
+        | Some f =>
+            let (d, r) := um_restore (uid_of i) dict_name f (get_db w i) in
+            (set_db w i d, restore_code r)
+        | None => (w, NOFILE)
+        end
+    | ORestoreFile i s =>
+        match nth s (w_files w) None with
         | Some f =>
             let (d, r) := um_restore (uid_of i) dict_name f (get_db w i) in
             (set_db w i d, restore_code r)
